@@ -12,11 +12,13 @@ PID = 'C12'
 PROOF_MODULES = ['ChamProofs.Props.C12', 'ChamProofs.Props.C13Exact']
 THEOREMS = ['ChamVerif.keeps_evalT', 'ChamVerif.C12_token_set_when_value_raises', 'ChamVerif.C12_record',
             'ChamVerif.C12_base_exception_untouched', 'ChamVerif.C12_macro_records_then_reraises', 'ChamVerif.C12_records_order',
-            'ChamVerif.C12_filler_records_failing_expression', 'ChamVerif.C12_handled_records_dropped']
+            'ChamVerif.C12_filler_records_failing_expression', 'ChamVerif.C12_handled_records_dropped',
+            'ChamVerif.locate_main', 'ChamVerif.locate_lib']
 LEVEL_TEXT = ('Proved in Lean: the TALES evaluator (python pipes, nested prefixes, string parts — all four mutually recursive functions) never '
               'clears __token (keeps_evalT, induction on the fuel over the mutual block), hence whenever evaluating an expression raises, '
               '__token holds an expression position (C12_token_set_when_value_raises); for an exception in the Exception hierarchy the record '
-              'attached to the message is exactly the source slice at that position with its line and column (C12_record), and an exception '
+              'attached to the message is exactly the source slice at that position with its line and column, looked up in the source of the template the position belongs to (C12_record; locate_main, locate_lib: '
+              'the rendered template, or the library template whose macro was running), and an exception '
               'outside the hierarchy gets no record and is not re-typed (C12_base_exception_untouched, the behaviour after the D-12a fix); a '
               'failure inside a slot filler is recorded at the filler\'s own expression and the macro adds no record of its own '
               '(C12_filler_records_failing_expression, after the D-12d fix); the fallback of tal:on-error starts with at most the records the '
@@ -339,6 +341,19 @@ def correspondence(ctx):
         g = talgen.TalGen(ctx.rng, depth=ctx.rng.choice([1, 2]), features={'define', 'condition', 'content', 'replace', 'attributes', 'interp',
                                                                              'pipes', 'prefixes', 'raise', 'repeat', 'omit'})
         gen.append(g.template())
+    # failures inside macros of another template and inside the fillers of their slots, also after a handled failure: the
+    # model compiles the library template too and looks every record up in the source it belongs to
+    import re as _re
+    builtin = ['KeyError', 'TypeError', 'ZeroDivisionError', 'RuntimeError']
+    k = 0
+    while k < ctx.budget(250, 8000):
+        c = filler_case(ctx.rng) if ctx.rng.random() < 0.5 else handled_case(ctx.rng)
+        if any(e not in builtin for e in c['exc']):
+            continue
+        k += 1
+        sub = lambda s: _re.sub(r"boom\('(\w+)'\)", lambda m: "R('b', None, '%s')" % m.group(1), s)
+        gen.append({'src': sub(c['main']), 'vars': [['R', {'fn': 'R'}], ['ok1', {'str': 'fine'}], ['lib', {'template': 1}]], 'objs': [],
+                    'libs': [sub(c['lib'])]})
     res = pipeline.run_cases(ctx, gen, what='render error')
     ctx.cov['render_errors_compared'] = sum(1 for c, m, i in res if i.get('exc') == 'render' and m is not None)
 
